@@ -148,6 +148,11 @@ pub struct RunCfg {
     /// yields) without waiting for a release.
     #[serde(default)]
     pub instant: Vec<usize>,
+    /// Drive the call / stream inside tokio task polls (current-thread runtime),
+    /// so that tokio's cooperative budget (128 operations per task poll) is in
+    /// force; `Act::Yield` ends a task poll.
+    #[serde(default)]
+    pub coop: bool,
 }
 
 impl RunCfg {
@@ -187,6 +192,8 @@ pub struct Profile {
     pub root_path_cap: Option<u64>,
     /// Generate runs that are dropped midway.
     pub aborts: bool,
+    /// Generate runs driven inside tokio task polls (cooperative budget active).
+    pub coop: bool,
 }
 
 impl Profile {
@@ -205,6 +212,7 @@ impl Profile {
             dup_access: false,
             root_path_cap: None,
             aborts: false,
+            coop: false,
         }
     }
     pub fn with_apis(mut self, shapes: &[Shape], w_with: usize, w_plain: usize) -> Self {
@@ -428,6 +436,7 @@ pub fn decode_cfg(t: &mut Tape, p: &Profile, n: usize, intr: bool) -> RunCfg {
         2 => (0..n).collect(),
         _ => (0..n).filter(|_| t.chance(1, 2)).collect(),
     };
+    let coop = p.coop && t.chance(1, 5);
     if !api.with {
         rev = false;
         strat = Strat::NonInterruptible;
@@ -447,5 +456,6 @@ pub fn decode_cfg(t: &mut Tape, p: &Profile, n: usize, intr: bool) -> RunCfg {
         yields,
         abort_after,
         instant: if api.shape.is_stream() { vec![] } else { instant },
+        coop,
     }
 }
